@@ -30,6 +30,9 @@ def walls(ctx, R):
     for cfgk, M in sorted(qp.models(ctx).items()):
         min_none, max_none = cfgk
         tag = "minPos %s, maxPos %s" % ("absent" if min_none else "present", "absent" if max_none else "present")
+        for hint, msg, node in M.problems:
+            if hint == "C03.WALLS":
+                R.bad("C03.WALLS", tag + "|" + msg[:50], where(f, node), msg)
         lw = [w for w in M.walls if w["wall_side"] == "left"]
         rw = [w for w in M.walls if w["wall_side"] == "right"]
         R.check(len(lw) == (0 if min_none else 1), "C03.WALLS", tag + "|left wall count", where(f), "%d left wall" % len(lw), "with minPos %s there are %d left walls (expected %d)" % ("None" if min_none else "set", len(lw), 0 if min_none else 1))
